@@ -70,9 +70,23 @@ func (g *c18Rig) T(op, out string) {
 	g.script = append(g.script, op+" => "+out)
 }
 
+var c18SeenClass = map[string]int{}
+var c18HitCount = 0
+
 func (g *c18Rig) hit(sig string, detail map[string]any) {
+	c18HitCount++
+	cl := sig
+	if f := strings.Fields(sig); len(f) >= 2 {
+		cl = f[0] + " " + f[1]
+	}
+	c18SeenClass[cl]++
 	detail["tag"] = g.tag
-	detail["script"] = append([]string(nil), g.script...)
+	if c18SeenClass[cl] == 1 {
+		// the first hit of a class carries the whole script as the concrete failing input
+		detail["script"] = append([]string(nil), g.script...)
+	} else if len(*g.hits) > 400 {
+		return // counted, not stored
+	}
 	*g.hits = append(*g.hits, c18Hit{sig, detail})
 }
 
@@ -796,10 +810,7 @@ func c18(c *ctx) {
 	sort.SliceStable(order, func(i, j int) bool { return prio(order[i]) < prio(order[j]) })
 	if len(order) > 0 {
 		all := map[string]any{}
-		count := map[string]int{}
-		for _, h := range hits {
-			count[class(h.sig)]++
-		}
+		count := c18SeenClass
 		for _, cl := range order {
 			h := hits[firstOf[cl]]
 			all[cl] = map[string]any{"signature": h.sig, "hits_this_run": count[cl], "failing_input": h.detail}
@@ -827,6 +838,6 @@ func c18(c *ctx) {
 			o.V(h.sig, map[string]any{"tag": h.detail["tag"], "op": h.detail["op"]})
 			emitted++
 		}
-		o.stat("monitor_hits_total", len(hits))
+		o.stat("monitor_hits_total", c18HitCount)
 	}
 }
